@@ -36,6 +36,10 @@ M = [
  ("C08", "macro-disable-removed", "preprocess/src/preprocess.rs", "            macro_disabled[macro_index] = true;\n", "", ["C08.macro/disable-bracket"]),
  ("C08", "evaluator-unchecked-add", "typer/src/evaluator.rs", "ir::Constant::UInt32(input) => ir::Constant::UInt32(!input),", "ir::Constant::UInt32(input) => ir::Constant::UInt32(!input + 1),", ["C08.arith/rssl_typer/evaluate_operator/Overflow(Add)#0"]),
  ("C08", "entry-point-without-body-unwrapped", "typer/src/typer/pipelines.rs", "        Some(function_impl) => function_impl,\n        // The entry point is declared but never defined\n        None => return Err(TyperError::PipelineEntryPointFunctionUnknown(location)),\n    };", "        Some(function_impl) => function_impl,\n        None => panic!(\"entry point without a body\"),\n    };", ["C08.pipeline/entry-without-body"]),
+ ("C02", "semantic-attribute-of-another-quantity", "msl/src/generator.rs", 'GroupIndex => "thread_index_in_threadgroup",', 'GroupIndex => "thread_index_in_simdgroup",', ["C02.semantic/metal-attribute"]),
+ ("C03", "matrix-element-bounds-swapped", "typer/src/typer/expressions.rs", "let l = if first_value.is_none() { x } else { y };", "let l = if first_value.is_none() { y } else { x };", ["C03.matrix-elements/bounds"]),
+ ("C05", "address-type-by-vk-flag", "hlsl/src/ast_generate.rs", "BufferAddress | RWBufferAddress if context.module.flags.requires_buffer_address => {", "BufferAddress | RWBufferAddress if context.module.flags.requires_vk_binding => {", ["C05.address-type/BufferAddress"]),
+ ("C13", "ray-flag-value", "ir/src/intrinsic_data.rs", '("RAY_FLAG_SKIP_TRIANGLES", 0x100),', '("RAY_FLAG_SKIP_TRIANGLES", 0x101),', ["C13.builtin/RAY_FLAG_SKIP_TRIANGLES"]),
  ("C09", "multiply-precedence", "formatter/src/formatter.rs", "                Multiply => 5,", "                Multiply => 6,", []),
  ("C09", "shift-spelling", "formatter/src/formatter.rs", '        RightShift => ">>",', '        RightShift => ">",', ["C09.optext/Binary::RightShift"]),
  ("C09", "assoc-assignment-left-to-right", "formatter/src/formatter.rs", "        16 => Associativity::RightToLeft,", "        16 => Associativity::LeftToRight,", []),
